@@ -29,16 +29,17 @@ pub struct Rec {
     pub module: Option<&'static str>,
     pub file: Option<&'static str>,
     pub line: Option<u32>,
-    pub mdc: bool,
+    /// value of MDC key "k" (None = absent)
+    pub mdc: Option<&'static str>,
 }
 
 pub fn records() -> Vec<Rec> {
     vec![
-        Rec { level: Level::Error, msg: "hi", target: "t", module: Some("mod::p"), file: Some("f.rs"), line: Some(42), mdc: true },
-        Rec { level: Level::Warn, msg: "", target: "a::b", module: None, file: None, line: None, mdc: false },
-        Rec { level: Level::Info, msg: "ünï", target: "é", module: Some("m::ö"), file: None, line: Some(0), mdc: true },
-        Rec { level: Level::Debug, msg: "{}()\\", target: "t", module: None, file: Some("dir/f.rs"), line: None, mdc: false },
-        Rec { level: Level::Trace, msg: "hi", target: "", module: Some("x"), file: Some(""), line: Some(u32::MAX), mdc: true },
+        Rec { level: Level::Error, msg: "hi", target: "t", module: Some("mod::p"), file: Some("f.rs"), line: Some(42), mdc: Some("v") },
+        Rec { level: Level::Warn, msg: "", target: "a::b", module: None, file: None, line: None, mdc: None },
+        Rec { level: Level::Info, msg: "ünï", target: "é", module: Some("m::ö"), file: None, line: Some(0), mdc: Some("") },
+        Rec { level: Level::Debug, msg: "{}()\\", target: "t", module: None, file: Some("dir/f.rs"), line: None, mdc: None },
+        Rec { level: Level::Trace, msg: "hi", target: "", module: Some("x"), file: Some(""), line: Some(u32::MAX), mdc: Some("ü v") },
     ]
 }
 
@@ -110,7 +111,10 @@ pub fn render(items: &[Item], r: &Rec, env: &Env) -> Out {
                     "X" | "mdc" => {
                         let key = lit_text(&args[0]);
                         let dflt = args.get(1).map(|a| lit_text(a)).unwrap_or_default();
-                        inner.text = if key == "k" && r.mdc { "v".into() } else { dflt };
+                        inner.text = match (key == "k", r.mdc) {
+                            (true, Some(v)) => v.to_owned(),
+                            _ => dflt,
+                        };
                     }
                     "d" | "date" => {
                         // only the generator's formats: %Y, %% and literal text
@@ -166,10 +170,13 @@ fn char_to_byte(s: &str, ci: usize) -> usize {
 
 /// Encodes `items` for record `r` on the current thread and compares with the reference.
 pub fn check_one(items: &[Item], pattern: &str, enc: &PatternEncoder, r: &Rec) -> Option<(String, String)> {
-    if r.mdc {
-        log_mdc::insert("k", "v");
-    } else {
-        log_mdc::remove("k");
+    match r.mdc {
+        Some(v) => {
+            log_mdc::insert("k", v);
+        }
+        None => {
+            log_mdc::remove("k");
+        }
     }
     let before_l = chrono::Local::now().year();
     let before_u = chrono::Utc::now().year();
